@@ -288,6 +288,19 @@ func (n *Net) Probe(ctx context.Context, a address.Address) ([]verifx.Operation,
 	return res.Operations, err
 }
 
+// Inject delivers an operation message to node a over the (un-faulted) transport, as a
+// peer's gossip would: used to redeliver an operation captured earlier with Probe.
+func (n *Net) Inject(ctx context.Context, a address.Address, req verifx.TxRequest) error {
+	if _, err := n.Probe(ctx, a); err != nil { // makes sure the probe transport exists
+		return err
+	}
+	n.mu.Lock()
+	p := n.probe
+	n.mu.Unlock()
+	_, err := p.TxClient().Send(ctx, a, req)
+	return err
+}
+
 // NewTransport returns the transport for one node.
 func (n *Net) NewTransport() aspen.Transport {
 	return &ftransport{Transport: n.mock.NewTransport(), net: n}
